@@ -16,12 +16,15 @@ package s3event
 
 import (
 	"encoding/json"
+	"encoding/xml"
 	"fmt"
 	"strings"
 	"time"
 
+	"github.com/aws/aws-sdk-go-v2/service/s3/types"
 	"github.com/gofiber/fiber/v2"
 	"github.com/versity/versitygw/auth"
+	"github.com/versity/versitygw/s3response"
 )
 
 type S3EventSender interface {
@@ -35,6 +38,40 @@ type EventMeta struct {
 	ObjectSize  int64
 	ObjectETag  *string
 	VersionId   *string
+	// Deleted is the result of a batch delete: when set, notifications
+	// are sent for these objects and not for the entries of the request
+	Deleted []types.DeletedObject
+}
+
+// deletedObjects returns the objects a batch delete request is notified for:
+// each object the backend reports as deleted once, or, when the result is not
+// known, the entries of the request.
+func deletedObjects(ctx *fiber.Ctx, meta EventMeta) ([]types.ObjectIdentifier, error) {
+	if meta.Deleted != nil {
+		objs := make([]types.ObjectIdentifier, 0, len(meta.Deleted))
+		seen := make(map[[2]string]struct{}, len(meta.Deleted))
+		for _, d := range meta.Deleted {
+			if d.Key == nil {
+				continue
+			}
+			id := [2]string{*d.Key, ""}
+			if d.VersionId != nil {
+				id[1] = *d.VersionId
+			}
+			if _, ok := seen[id]; ok {
+				continue
+			}
+			seen[id] = struct{}{}
+			objs = append(objs, types.ObjectIdentifier{Key: d.Key, VersionId: d.VersionId})
+		}
+		return objs, nil
+	}
+
+	var dObj s3response.DeleteObjects
+	if err := xml.Unmarshal(ctx.Body(), &dObj); err != nil {
+		return nil, err
+	}
+	return dObj.Objects, nil
 }
 
 type EventSchema struct {
